@@ -1,7 +1,9 @@
 """C07 — loop-level theorems + correspondence of Solver.solve with a scripted step oracle."""
 from ..gen import Gen
 from ..unit import run_unit
+from .. import camp_props
 from ..units.loop import Loop
+from ..units.small import Evaluator
 
 PROP_FILES = ["props/C07.v"]
 TECHNIQUE = "Coq proof (invariants by induction over arbitrary step-oracle traces) + exact differential correspondence of Solver.solve with a scripted step oracle and virtual clock"
@@ -9,5 +11,6 @@ TECHNIQUE = "Coq proof (invariants by induction over arbitrary step-oracle trace
 
 def run(rep, tier, seed, scratch):
     g = Gen(seed)
-    u = Loop()
-    run_unit(rep, u, u.gen(g, tier), scratch)
+    for u in (Evaluator(), Loop()):
+        run_unit(rep, u, u.gen(g, tier), scratch)
+    camp_props.run_C07(rep, tier, seed)
